@@ -1234,13 +1234,14 @@ SPECS["C04"]["theorems"] += [
     "Woodpile.Props.C04W.reachable_allInv",
     "Woodpile.Props.C04W.all_filled_unblocks_w",
     "Woodpile.Props.C04W.observed_bytes_immutable_w",
+    "Woodpile.Props.C04W.observed_bytes_immutable_handle",
     "Woodpile.Props.C04W.slices_never_overwritten_w",
 ]
 SPECS["C04"]["level_text"] += (' Props/C04W (track wabs): the same clauses for every handle of every WOp history (vocabulary as Props/C03W). '
     'stable_prefix_has_no_hole_w / ok_iff_no_pending_w: per live handle of every reachable world (reachable_allInv), no side condition; all_filled_unblocks_w: once handle i has '
     'nothing pending, consumed ++ visible is its whole ledger; observed_bytes_immutable_w: along ANY history in which handle i is not reset (clear i, take i, drop i) - operations on and '
     'clears of other handles, arena swaps, read_n by other objects, other iovecs\' copies and backfills included - every byte of ghost i ++ visible i (indeed every byte cell of i\'s pipe) '
-    'keeps its position and value (side condition FillPrivate, as C03W); slices_never_overwritten_w: no op but backfill changes a byte any slice of any iovec reads (no side condition).')
+    'keeps its position and value (side condition FillPrivate, as C03W); observed_bytes_immutable_handle: the same with the side condition for handle i only (no backfill through another iovec lands in memory i references - whatever other handles do to each other), and i stays live; slices_never_overwritten_w: no op but backfill changes a byte any slice of any iovec reads (no side condition).')
 SPECS["C20"]["lean_modules"] += ["Woodpile.Props.C20W"]
 SPECS["C20"]["theorems"] += [
     "Woodpile.Props.C20W.reachable_base",
